@@ -37,7 +37,8 @@ theorem commitSkip_frames (m : Mem) (hi : Inv m) : m.commitSkipIndexes.1.frames.
     unfold Mv.Core.abs; rw [hp]; rfl
   · obtain ⟨m1, δ, h1, hv, _, _⟩ := applyRecords_view m m.pending false hi.ok
     simp only [h1]
-    exact hv
+    show (m1.foldEmbs δ.embs).frames.map view = _
+    rw [foldEmbs_frames]; exact hv
 
 /-- after a durable operation the committed frame table IS the abstract state -/
 theorem durable_frames (m : Mem) (op : Op) (hi : Inv m) (hd : op.durable = true) :
